@@ -366,6 +366,8 @@ func c11Run(rc *core.RunCtx) {
 	}
 	c03Skeletons(rc.Quick(), scopeProg)
 	c03Siblings(rc.Quick(), scopeProg)
+	c03ParamForms(scopeProg)
+	c03ClassBinds(scopeProg)
 	{
 		budget, depth := 4, 3
 		if !rc.Quick() {
